@@ -161,3 +161,107 @@ func configFuncFieldsRule(r *Run, pkg, owner string) {
 	}
 	_ = types.Typ
 }
+
+// sharesBackingWith: may the slice v share its backing array with a value satisfying isRoot?  Follows the
+// operations that keep the array: phi, re-slicing, append's first operand (append writes in place while
+// capacity lasts), and variables (cells, also when captured by closures).  A copy (append to nil/fresh,
+// slices.Clone, make+copy) ends the chain.
+func sharesBackingWith(v ssa.Value, isRoot func(ssa.Value) bool) ssa.Value {
+	seen := map[ssa.Value]bool{}
+	var rec func(v ssa.Value, d int) ssa.Value
+	rec = func(v ssa.Value, d int) ssa.Value {
+		v = stripValue(v)
+		if v == nil || seen[v] || d > 8 {
+			return nil
+		}
+		seen[v] = true
+		if isRoot(v) {
+			return v
+		}
+		switch x := v.(type) {
+		case *ssa.Phi:
+			for _, e := range x.Edges {
+				if h := rec(e, d+1); h != nil {
+					return h
+				}
+			}
+		case *ssa.Slice:
+			return rec(x.X, d+1)
+		case *ssa.Call:
+			if b, ok := x.Call.Value.(*ssa.Builtin); ok && b.Name() == "append" && len(x.Call.Args) > 0 {
+				return rec(x.Call.Args[0], d+1)
+			}
+		case *ssa.UnOp:
+			if x.Op != token.MUL {
+				return nil
+			}
+			var cell *ssa.Alloc
+			if a, ok := x.X.(*ssa.Alloc); ok {
+				cell = a
+			} else if fv, ok := x.X.(*ssa.FreeVar); ok {
+				if b, ok := bindingOf(fv).(*ssa.Alloc); ok {
+					cell = b
+				}
+			}
+			if cell != nil {
+				for _, st := range storesInto(cell) {
+					if h := rec(st.Val, d+1); h != nil {
+						return h
+					}
+				}
+			}
+		}
+		return nil
+	}
+	return rec(v, 0)
+}
+
+// configSlicesNotAppendedRule: the per-request code of a middleware (its handler closure and the closures inside
+// it) never appends to a slice that may share its backing array with a field of the middleware's Config: the
+// configuration is shared by all requests, an in-place append is a write to shared memory (names, lists and
+// keys of one request show up in another, and concurrent requests race).
+func configSlicesNotAppendedRule(r *Run, pkg, owner string) {
+	f := r.Fn(pkg, "New")
+	hs := handlerClosures(f)
+	r.need(len(hs) >= 1, "New returns a handler closure")
+	isCfgField := func(v ssa.Value) bool {
+		fv := fieldOfValue(v)
+		if fv == nil {
+			return false
+		}
+		if _, isAddr := v.(*ssa.FieldAddr); isAddr {
+			return false
+		}
+		_, isSlice := fv.Type().Underlying().(*types.Slice)
+		return isSlice && strings.HasPrefix(fieldOwner(fv), owner+".Config")
+	}
+	n, nbad := 0, 0
+	for _, h := range hs {
+		fs := append([]*ssa.Function{h}, anonFuncsDeep(h)...)
+		for _, g := range fs {
+			for _, b := range g.Blocks {
+				for _, in := range b.Instrs {
+					c, ok := in.(*ssa.Call)
+					if !ok {
+						continue
+					}
+					if bi, ok := c.Call.Value.(*ssa.Builtin); !ok || bi.Name() != "append" || len(c.Call.Args) == 0 {
+						continue
+					}
+					n++
+					root := sharesBackingWith(c.Call.Args[0], isCfgField)
+					if root != nil {
+						nbad++
+						fv := fieldOfValue(root)
+						r.bad(fmt.Sprintf("handler:append-into-%s.%s", fieldOwner(fv), fv.Name()), r.pos(in), "the request handler appends to a slice that can share its backing array with "+fieldOwner(fv)+"."+fv.Name()+
+							": with spare capacity the append writes into the configuration's array, which every request (also concurrent ones) reads")
+					}
+				}
+			}
+		}
+	}
+	r.count("append calls in per-request code", n)
+	if nbad == 0 {
+		r.ok("handler:no-append-into-config", r.fpos(hs[0]), fmt.Sprintf("%d append calls in per-request code, none on a slice that can alias a Config field", n))
+	}
+}
